@@ -27,7 +27,7 @@ use std::fmt::Write as _;
 
 macro_rules! pp {
     ($e:expr) => {
-        ty::print::with_resolve_crate_name!(ty::print::with_no_trimmed_paths!($e))
+        ty::print::with_resolve_crate_name!(ty::print::with_no_visible_paths!(ty::print::with_no_trimmed_paths!($e)))
     };
 }
 
